@@ -74,7 +74,34 @@ def collect():
     print('collected')
 
 
+def _one(args):
+    key, dst, checks = args
+    tool = 'tools/pmutant.sh' if os.environ.get('SEEDED_PARALLEL') else 'tools/mutant.sh'
+    out = subprocess.run([os.path.join(V, tool), os.path.join(dst, 'patch.diff')] + checks,
+                         capture_output=True, text=True).stdout
+    return key, out
+
+
 def run_matrix(sel):
+    # SEEDED_PARALLEL=n: run n changes at a time with tools/pmutant.sh (scratch worktrees, /repo untouched)
+    par = int(os.environ.get('SEEDED_PARALLEL', '0') or 0)
+    outs = {}
+    if par > 1:
+        from concurrent.futures import ThreadPoolExecutor
+        jobs = []
+        for key in ids():
+            pid, x = key.split('/')
+            dst = os.path.join(V, 'seeded', pid, x)
+            meta_p = os.path.join(dst, 'meta.json')
+            if not os.path.exists(meta_p) or (sel and key not in sel and pid not in sel and ('round:' + x) not in sel):
+                continue
+            if json.load(open(meta_p)).get('status') == 'not-applicable':
+                continue
+            jobs.append((key, dst, OVERRIDE_CHECKS.get(key, [pid] + RELATED.get(pid, []))))
+        with ThreadPoolExecutor(par) as ex:
+            for key, out in ex.map(_one, jobs):
+                outs[key] = out
+                print(key, ' | '.join(l[:60] for l in out.splitlines()), flush=True)
     rows = []
     for key in ids():
         pid, x = key.split('/')
@@ -83,15 +110,14 @@ def run_matrix(sel):
         if not os.path.exists(meta_p):
             continue
         meta = json.load(open(meta_p))
-        if sel and key not in sel and pid not in sel:
+        if sel and key not in sel and pid not in sel and ('round:' + x) not in sel:
             rows.append((key, meta))
             continue
         if meta.get('status') == 'not-applicable':
             rows.append((key, meta))
             continue
         checks = OVERRIDE_CHECKS.get(key, [pid] + RELATED.get(pid, []))
-        out = subprocess.run([os.path.join(V, 'tools/mutant.sh'), os.path.join(dst, 'patch.diff')] + checks,
-                             capture_output=True, text=True).stdout
+        out = outs[key] if key in outs else _one((key, dst, checks))[1]
         res = {}
         for line in out.splitlines():
             parts = line.split()
